@@ -20,7 +20,10 @@ LEVEL_TEXT = ("Theorems in Coq over the model of server/wal (as repaired by fixe
 LEVEL_NOTE = ("Trusted: Coq kernel, extraction (ExtrOcamlBasic), the Go harness and its canonicalisation. Modelled, not verified: "
               "protobuf (record sizes are inputs taken from proto.Marshal), mmap/msync and the codec (C10), the read-only segment "
               "cache (assumed transparent; exercised by the correspondence runs), the wall clock (injected), goroutine "
-              "interleavings of trimmer/sync with the writer (operations are sequential here). In the Coq model reopen is a clean "
+              "interleavings of trimmer/sync with the writer (operations are sequential here). The crash-reopen op R of the harness (directory copied "
+              "without Close: every appended byte is in the copy, only the index file of the current segment is missing or stale; the run "
+              "continues on the copy) is mapped to the model's reopen, so what earlier process lifetimes leave on disk (index files, stale "
+              "segments) is checked by correspondence and spec verdicts, not by a theorem. In the Coq model reopen is a clean "
               "Close+open: the model has no crash relation, so the INTERMEDIATE DIRECTORY STATES of the multi-file operations "
               "(rollover, truncate across segments, clear, trim deleting segments, close, index write) are outside the model and the "
               "theorems; they are covered by the leg `walcrash` only (spec verdicts, no proof): the directory is copied at every hook "
